@@ -80,8 +80,7 @@ BOUND = {
              "depth 3 for the joints G3 and G9 (3 variables), depth 2 for the other joints; "
              "depth 2 for the 30 linear Bayesian worlds; refusals / consumers close a history (nothing but the read-only "
              "operations of the fingerprints follows them in that history; the live world then continues with the sibling "
-             "histories), on every target after histories shorter than depth-1 and on the object made by the last operation after "
-             "histories of length depth-1; "
+             "histories), on every target and after every history shorter than the depth; "
              "1 value catalogue (seed%3); conditioning alphabet = all non-empty subsets of the target's parameters "
              "(<=3 parameters) or singletons + full set (>=4); horizon run: 200 alternating re-conditionings of G1; "
              "naming: N1 (focus y, x) and N2 (focus z, s) to depth 3, N3 (focus y, d) to depth 2, 1 catalogue; routes: inferred names x "
@@ -190,7 +189,7 @@ def cells(tier, seed):
     # refused / consumer operations: "leaf" = they close a history, "full" = ordinary members of the alphabet
     for c in out:
         if c["kind"] in ("joint", "factor", "special"):
-            c["closing"] = "leaf-new" if q else ("full" if c["depth"] <= 3 else "leaf")
+            c["closing"] = "leaf" if q else ("full" if c["depth"] <= 3 else "leaf")
     # longest cells first (better pool utilisation); order is deterministic
     out.sort(key=lambda c: (-(c.get("depth", 9) * 10 + (5 if c["kind"] == "joint" else 0)), str(sorted(c.items()))))
     return out
@@ -905,12 +904,13 @@ def run_subops(w, subs):
     for nm, thunk in subs:
         with SavedRNG(6):
             try:
-                r = thunk()
-                if isinstance(r, np.ndarray):
-                    results[nm] = r
+                _r = thunk()
+                if isinstance(_r, np.ndarray):
+                    results[nm] = _r
                     outs.append("%s=done" % nm)
                 else:
-                    outs.append("%s=accepted:%s" % (nm, type(r).__name__))
+                    outs.append("%s=accepted:%s" % (nm, type(_r).__name__))
+                del _r
             except Exception as e:  # noqa  refused; allowed
                 outs.append("%s=%s" % (nm, type(e).__name__))
     return outs, results
@@ -1297,7 +1297,8 @@ class Explorer:
             allops = allops[self.cell["first"]:self.cell["first"] + 1]
         closing = self.cell.get("closing", "leaf")
         if closing == "leaf-new" and history and len(history) == self.depth - 1:
-            # last level of the quick tier: refused / consumer operations only on the object the last operation made
+            # (economy mode, not used by the tiers as enumerated: at the last level refused / consumer operations only on the
+            # object the last operation made)
             allops = [o for o in allops if o[0] not in CLOSING or o[1] == newest]
         if not allops:
             res.traces += 1
@@ -1330,7 +1331,9 @@ class Explorer:
                             w2, t, bad2, h2 = w3, t3, bad3, hmin
                     if h2[t][0] in BUNDLES:
                         # name the first sub-operation that alone reproduces the first alteration
-                        for _sn in (REFUSAL_NAMES if h2[t][0] == "refusals" else CONSUMER_NAMES):
+                        # (the sub-operations that apply to the target are read off an un-altered world)
+                        w3, t3, _ = self.replay(h2[:t])
+                        for _sn in ([x[0] for x in BUNDLES[h2[t][0]](w3, h2[t][1])] if t3 is None else []):
                             hsub = h2[:t] + [(_sn, h2[t][1], h2[t][2])]
                             w3, t3, bad3 = self.replay(hsub)
                             if t3 == t and bad3 and bad3[0][:2] == bad2[0][:2]:
